@@ -102,7 +102,14 @@ def dom_bitmap(ctx):
             ok = ce[0] == "logic" and ce[1] == "And" and ((fld_eq(ce[2], "width", "width") and fld_eq(ce[3], "height", "height")) or (fld_eq(ce[3], "width", "width") and fld_eq(ce[2], "height", "height")))
     hl = [s for s in sts if s[0] == "let" and s[1].startswith("height#")]
     okh = len(hl) == 1 and hl[0][3][0] == "bin" and hl[0][3][1] == "Div" and is_var(hl[0][3][3], "width") and hl[0][3][2][0] == "call" and hl[0][3][2][1].endswith("::len") and is_var(hl[0][3][2][2][0], "bits")
-    obs.append(Ob(r, "symbol-size", ok and okh, "SymbolSize is returned exactly when no catalogue entry has block_setup().width == width and .height == bits.len() / width", detail=det))
+    if not (ok and okh):
+        # shape not recognised: decide by folding the function on arrays of every (width, height) of a grid around the catalogue's sizes
+        okx, detx = ctx.memo("lookup_exec", lambda: list(_lookup_exec(ctx)))
+        if okx is not None:
+            obs.append(Ob(r, "symbol-size", bool(okx), "SymbolSize is returned exactly when no catalogue entry has these outer dimensions - %s" % detx))
+            ok = okh = None
+    if ok is not None:
+        obs.append(Ob(r, "symbol-size", ok and okh, "SymbolSize is returned exactly when no catalogue entry has block_setup().width == width and .height == bits.len() / width", detail=det))
     obs += floor(obs, r, 5, "rejection obligations")
     return obs
 
@@ -283,7 +290,27 @@ def prov_map(ctx):
     r = "PROV-MAP"
     f = ctx.facts()
     obs = []
+    FIELDS = ("width", "height", "extra_vertical_alignments", "extra_horizontal_alignments", "has_padding")
+    decided = set()
+    # primary: MatrixMap::new folded for every size, try_from_bits through PARSE-INV's fold (which compares the same fields)
+    nf = "placement::MatrixMap::<M>::new"
+    need(nf in f.thir, r, nf)
+    okn, detn = ctx.memo("map_new_exec", lambda: list(_map_new_exec(ctx)))
+    if okn is not None:
+        decided.add(nf)
+        bad_field, msg = (detn if isinstance(detn, (list, tuple)) else (None, detn)) if not okn else (None, detn)
+        for k in FIELDS:
+            okk = bool(okn) or (bad_field is not None and bad_field != k)
+            obs.append(Ob(r, "new:%s" % k, okk, "new: field %s comes from the matching attribute of `size` - %s" % (k, msg), site=T.span_str(f.thir[nf]["span"])))
+    need(FN in f.thir, r, FN)
+    okp, detp = parse_exec(ctx)
+    if okp:
+        decided.add(FN)
+        for k in FIELDS:
+            obs.append(Ob(r, "try_from_bits:%s" % k, True, "try_from_bits: field %s comes from the matching attribute of `size` - %s" % (k, detp), site=T.span_str(f.thir[FN]["span"])))
     for fn in ("placement::MatrixMap::<M>::new", FN):
+        if fn in decided:
+            continue
         need(fn in f.thir, r, fn)
         sts = T.stmts(f.thir[fn]["body"], {})
         adts = []
@@ -626,3 +653,223 @@ def _render_exec(ctx, sizes=None):
                     return False, "%s: pixel (%d, %d) is %s, the symbol geometry says %s" % (v, r, c, got, want)
         n += 1
     return True, "%d symbol sizes rendered symbolically: every finder / alignment / content pixel in place" % n
+
+
+# ---- PARSE-INV: try_from_bits folded on a fully opaque pixel array --------------------------------------------------------
+
+def geometry(su, padding):
+    """the symbol geometry of ISO/IEC 16022 5.3 for one block setup: (W, H, cw, ch, {pixel index: "HIGH"|"LOW"} for every finder,
+    clock, alignment and fixed-corner module, [pixel index of content module k])"""
+    ev, eh = su["extra_vertical_alignments"], su["extra_horizontal_alignments"]
+    W, H = su["width"], su["height"]
+    cw, ch = W - 2 - 2 * ev, H - 2 - 2 * eh
+    bh, bw = ch // (eh + 1), cw // (ev + 1)
+    fixed, content = {}, [None] * (cw * ch)
+    for r in range(H):
+        lr = r % (bh + 2)
+        for c in range(W):
+            lc = c % (bw + 2)
+            if lc == 0 or lr == bh + 1:
+                fixed[r * W + c] = "HIGH"
+            elif lr == 0:
+                fixed[r * W + c] = "HIGH" if c % 2 == 0 else "LOW"
+            elif lc == bw + 1:
+                fixed[r * W + c] = "HIGH" if r % 2 == 1 else "LOW"
+            else:
+                content[(r - 1 - 2 * (r // (bh + 2))) * cw + (c - 1 - 2 * (c // (bw + 2)))] = r * W + c
+    if padding:
+        # 5.8.1 / Annex F: the lower right 2x2 corner of the mapping matrix carries the fixed pattern
+        for (dr, dc), v in {(ch - 2, cw - 2): "HIGH", (ch - 2, cw - 1): "LOW", (ch - 1, cw - 2): "LOW", (ch - 1, cw - 1): "HIGH"}.items():
+            fixed[content[dr * cw + dc]] = v
+    return W, H, cw, ch, fixed, content
+
+
+def parse_exec(ctx, sizes=None):
+    """try_from_bits folded for a symbol size on a pixel array of W x H opaque pixels p0, p1, ..: every test of a pixel against
+    LOW / HIGH becomes a symbolic boolean; a branch on such a boolean is followed only when its other side is nothing but
+    `return Err(..)`, and the condition for getting past is recorded.  For the array to be accepted those conditions must
+    hold: they have to be exactly `pixel i == the geometry's value` for every finder, clock, alignment and fixed-corner module
+    (so a deviation in any of them is rejected, and acceptance depends on nothing else), the returned content has to be the
+    remaining pixels in row-major order, the size the one with these dimensions, and the map's fields that size's.
+    Together with RENDER-GEOM (bitmap() draws exactly that geometry around the content, all sizes) this decides both directions of
+    the inverse property for the sizes folded.  Returns (ok | None, detail)."""
+    key = "parse_exec_" + ("all" if sizes is None else "%d" % len(sizes))
+    return ctx.memo(key, lambda: list(_parse_exec(ctx, sizes)))
+
+
+def _parse_exec(ctx, sizes):
+    f = ctx.facts()
+    b = f.thir.get(FN)
+    if b is None:
+        return None, "try_from_bits not found"
+    from . import p_symbols
+    t = p_symbols.tables(ctx)
+    pn = [p_["pat"]["name"] for p_ in b["params"] if p_.get("pat", {}).get("k") == "Bind"]
+    if len(pn) != 2:
+        return None, "try_from_bits(bits, width): unexpected parameters"
+    catalogue = [{"__adt__": SS, "__variant__": v} for v in t["variants"]]
+    n = 0
+    n_tests = 0
+    for v in (sizes or t["variants"]):
+        su = t["setup"].get(v)
+        if not isinstance(su, dict):
+            return None, "no block setup for %s" % v
+        W, H, cw, ch, fixed, content = geometry(su, bool(t["padding"].get(v)))
+        bits = [T.Token("p%d" % i) for i in range(W * H)]
+
+        def on_call(folder, c):
+            cc = T.canon(T.callee_of(c))
+            if cc.endswith("SymbolList::all"):
+                return list(catalogue)
+            return NotImplemented
+        fo = T.Folder(f, env={pn[0]: bits, pn[1]: W}, on_call=on_call, effects=True, local_calls=3)
+        fo.const_values = {"HIGH": True, "LOW": False}       # M = bool, the crate's only Bit implementation
+        fo.max_iter = 40000
+        fo.sym_eq = lambda a_, b_: isinstance(a_, T.Token) != isinstance(b_, T.Token) and (isinstance(a_, bool) or isinstance(b_, bool))
+        try:
+            res = fo.run(b["body"])
+        except T.Trap as ex:
+            return False, "%s: try_from_bits can trap on a %d x %d array: %s" % (v, W, H, ex)
+        except T.Undecidable as ex:
+            return None, "%s: try_from_bits does not fold (%s)" % (v, ex)
+        if not (isinstance(res, dict) and res.get("__variant__") == "Ok"):
+            return False, "%s: no %d x %d array is accepted (result %s)" % (v, W, H, (res or {}).get("__variant__") if isinstance(res, dict) else res)
+        val = res.get("#0")
+        if not (isinstance(val, (list, tuple)) and len(val) == 2 and isinstance(val[0], dict)):
+            return None, "%s: unexpected result shape" % v
+        mm, sz = val
+        req = {}
+        try:
+            for cond, _err in fo.path:
+                if isinstance(cond, T.Sym):
+                    for a_, b_ in T.sym_required(cond.f):
+                        pix, cst = (a_, b_) if isinstance(a_, T.Token) else (b_, a_)
+                        i = int(str(pix)[1:])
+                        cst = "HIGH" if cst is True else "LOW"
+                        if i in req and req[i] != cst:
+                            return False, "%s: pixel %d must be both %s and %s - no array is accepted" % (v, i, req[i], cst)
+                        req[i] = cst
+                        n_tests += 1
+                elif cond is False:
+                    return False, "%s: the accepting path is infeasible" % v
+        except T.Undecidable as ex:
+            return False, "%s: acceptance is not a conjunction of pixel tests (%s): some array is accepted whose finder or alignment modules deviate" % (v, ex)
+        miss = sorted(set(fixed) - set(req))
+        extra = sorted(set(req) - set(fixed))
+        wrong = sorted(i for i in req if i in fixed and req[i] != fixed[i])
+        if miss:
+            return False, "%s: pixel (%d, %d), a fixed %s module, is not tested: an array deviating there is accepted (%d untested)" % (v, miss[0] // W, miss[0] % W, fixed[miss[0]], len(miss))
+        if wrong:
+            return False, "%s: pixel (%d, %d) must be %s to be accepted, the geometry says %s" % (v, wrong[0] // W, wrong[0] % W, req[wrong[0]], fixed[wrong[0]])
+        if extra:
+            return False, "%s: content pixel (%d, %d) is required to be %s" % (v, extra[0] // W, extra[0] % W, req[extra[0]])
+        ent = [x.load() if isinstance(x, T.Ref) else x for x in (mm.get("entries") or [])]
+        want = ["p%d" % i for i in content]
+        if [str(x) for x in ent] != want:
+            k = next((k for k in range(min(len(ent), len(want))) if str(ent[k]) != want[k]), min(len(ent), len(want)))
+            return False, "%s: the parsed content has %d modules (expected %d); module %d is %s, expected pixel %s" % (v, len(ent), len(want), k, ent[k] if k < len(ent) else None, want[k] if k < len(want) else None)
+        got = (mm.get("width"), mm.get("height"), mm.get("extra_vertical_alignments"), mm.get("extra_horizontal_alignments"), mm.get("has_padding"),
+               sz.get("__variant__") if isinstance(sz, dict) else (sz.load().get("__variant__") if isinstance(sz, T.Ref) else sz))
+        exp = (cw, ch, su["extra_vertical_alignments"], su["extra_horizontal_alignments"], bool(t["padding"].get(v)), v)
+        if got != exp:
+            return False, "%s: map fields / size are %r, expected %r" % (v, got, exp)
+        n += 1
+    return True, "%d symbol sizes: an array is accepted iff all %d fixed modules have the geometry's value; the content is the remaining pixels in order" % (n, n_tests)
+
+
+def parse_inv(ctx):
+    """PARSE-INV (see parse_exec)"""
+    r = "PARSE-INV"
+    f = ctx.facts()
+    ok, det = parse_exec(ctx)
+    site = T.span_str(f.thir[FN]["span"]) if FN in f.thir else None
+    if ok is None:
+        return [Ob(r, "accept-iff-geometry", False, "cannot decide: " + str(det), site=site)]
+    return [Ob(r, "accept-iff-geometry", bool(ok), str(det), site=site)]
+
+
+def _map_new_exec(ctx):
+    """MatrixMap::new(size) folded for every size (M = bool): (ok | None, text | (field, text))"""
+    f = ctx.facts()
+    fn = "placement::MatrixMap::<M>::new"
+    b = f.thir[fn]
+    from . import p_symbols
+    t = p_symbols.tables(ctx)
+    pn = [p_["pat"]["name"] for p_ in b["params"] if p_.get("pat", {}).get("k") == "Bind"]
+    if len(pn) != 1:
+        return None, "new(size): unexpected parameters"
+    for v in t["variants"]:
+        su = t["setup"].get(v)
+        if not isinstance(su, dict):
+            return None, "no block setup for %s" % v
+        ev, eh = su["extra_vertical_alignments"], su["extra_horizontal_alignments"]
+        cw, ch = su["width"] - 2 - 2 * ev, su["height"] - 2 - 2 * eh
+        fo = T.Folder(f, env={pn[0]: {"__adt__": SS, "__variant__": v}}, effects=True, local_calls=3)
+        fo.const_values = {"HIGH": True, "LOW": False}
+        fo.sym_eq = lambda a_, b_: False
+        try:
+            mm = fo.run(b["body"])
+        except T.Trap as ex:
+            return False, (None, "%s: new() traps: %s" % (v, ex))
+        except T.Undecidable as ex:
+            return None, "%s: new() does not fold (%s)" % (v, ex)
+        if not isinstance(mm, dict):
+            return None, "%s: new() does not return a map" % v
+        exp = {"width": cw, "height": ch, "extra_vertical_alignments": ev, "extra_horizontal_alignments": eh, "has_padding": bool(t["padding"].get(v))}
+        for k, w in exp.items():
+            if mm.get(k) != w:
+                return False, (k, "%s: new() sets %s = %r, the size's value is %r" % (v, k, mm.get(k), w))
+        ent = mm.get("entries")
+        if not (isinstance(ent, list) and len(ent) == cw * ch and all(x is False for x in ent)):
+            return False, ("width", "%s: new() allocates %s entries, expected %d LOW modules" % (v, len(ent) if isinstance(ent, list) else ent, cw * ch))
+    return True, "%d symbol sizes folded" % len(t["variants"])
+
+
+def _lookup_exec(ctx):
+    """try_from_bits folded on W x H arrays of one opaque pixel value for every (W, H) of a grid: all catalogue widths / heights and
+    their neighbours, small and oversized values.  Err(SymbolSize) must come back exactly for the pairs that are no catalogue size."""
+    f = ctx.facts()
+    b = f.thir.get(FN)
+    from . import p_symbols
+    t = p_symbols.tables(ctx)
+    pn = [p_["pat"]["name"] for p_ in b["params"] if p_.get("pat", {}).get("k") == "Bind"]
+    if len(pn) != 2:
+        return None, "try_from_bits(bits, width): unexpected parameters"
+    catalogue = [{"__adt__": SS, "__variant__": v} for v in t["variants"]]
+    dims = {(t["setup"][v]["width"], t["setup"][v]["height"]) for v in t["variants"]}
+    ws = sorted({x + d for x, _y in dims for d in (-1, 0, 1)} | {1, 2, 3, 5, 150, 200})
+    hs = sorted({y + d for _x, y in dims for d in (-1, 0, 1)} | {1, 2, 3, 5, 150, 200})
+    pix = T.Token("p0")
+    n = 0
+
+    def on_call(folder, c):
+        cc = T.canon(T.callee_of(c))
+        if cc.endswith("SymbolList::all"):
+            return list(catalogue)
+        if cc.endswith("SymbolSize::block_setup") and len(c["args"]) == 1:
+            v = folder.fold(c["args"][0])
+            v = v.load() if isinstance(v, T.Ref) else v
+            if isinstance(v, dict) and v.get("__variant__") in t["setup"]:
+                return t["setup"][v["__variant__"]]
+        return NotImplemented
+    for W in ws:
+        for H in hs:
+            if W <= 0 or H <= 0:
+                continue
+            fo = T.Folder(f, env={pn[0]: [pix] * (W * H), pn[1]: W}, on_call=on_call, effects=True, local_calls=3)
+            fo.const_values = {"HIGH": True, "LOW": False}
+            fo.max_iter = 40000
+            fo.sym_eq = lambda a_, b_: isinstance(a_, T.Token) != isinstance(b_, T.Token)
+            try:
+                res = fo.run(b["body"])
+            except T.Trap as ex:
+                return False, "a %d x %d array traps: %s" % (W, H, ex)
+            except T.Undecidable as ex:
+                return None, "try_from_bits does not fold on a %d x %d array (%s)" % (W, H, ex)
+            err = res.get("#0") if isinstance(res, dict) and res.get("__variant__") == "Err" else None
+            is_ss = isinstance(err, dict) and err.get("__variant__") == "SymbolSize"
+            if is_ss != ((W, H) not in dims):
+                return False, "a %d x %d array %s" % (W, H, "is refused with SymbolSize although the catalogue has that size" if is_ss else "is not refused with SymbolSize although no catalogue size has these dimensions (result: %s)" % (
+                    (err or {}).get("__variant__") if isinstance(err, dict) else (res.get("__variant__") if isinstance(res, dict) else res)))
+            n += 1
+    return True, "%d (width, height) pairs folded" % n
